@@ -21,6 +21,6 @@ Deliver, inside {wt}/_seed/ (create it):
   2. a demonstration: a Go test file or small program (put it under {wt}/_seed/demo/, with a README line saying how to run it) that FAILS with the change applied and PASSES without it, showing the property violated on the real code.
   3. meta.json — {{"property": "{pid}", "summary": "...", "needs": "what specific input/schedule/sequence it needs to manifest", "files": [...], "demo_cmd": "..."}}
 
-Check yourself before finishing: (a) with the patch: `go build ./...` OK and the existing tests of the packages you touched pass (`go test -vet=off -count=1 ./<pkg>/...`; run the whole suite `go test -vet=off -count=1 ./...` once if it takes < 10 min); (b) the demo fails with the patch and passes with `git stash`/without it. Environment: offline; in every shell `export GOFLAGS=-mod=mod GOPROXY=off GOSUMDB=off GOTOOLCHAIN=local`. A demo that needs an external module cannot be fetched; use only the standard library and the repo itself (a demo test may live inside the package directory while you run it, but deliver it under _seed/demo and say where to copy it).
+Check yourself before finishing: (a) with the patch: `go build ./...` OK and the existing tests of the packages you touched pass (`go test -vet=off -count=1 ./<pkg>/...`; run the whole suite `go test -vet=off -count=1 ./...` once if it takes < 10 min); (b) the demo fails with the patch and passes with `git stash`/without it. NEVER use `git stash` (the stash list is shared with other worktrees): to test without your change use `git diff > /tmp/p.diff; git apply -R /tmp/p.diff; …; git apply /tmp/p.diff`. The only pre-existing offline failure of the suite is TestResolveEndpoint in ./uacp (needs DNS). Environment: offline; in every shell `export GOFLAGS=-mod=mod GOPROXY=off GOSUMDB=off GOTOOLCHAIN=local`. A demo that needs an external module cannot be fetched; use only the standard library and the repo itself (a demo test may live inside the package directory while you run it, but deliver it under _seed/demo and say where to copy it).
 
 Leave the worktree with the patch APPLIED and the _seed directory filled in. In your final message give: the summary, what it needs to manifest, the exact commands you ran and their results.""")
